@@ -70,10 +70,15 @@ pub struct World {
 }
 
 pub fn world(n_contracts: usize) -> World {
+    world_of(n_contracts, false)
+}
+
+/// `adapted`: code 1 is the scripted contract registered through the Empty adapters
+pub fn world_of(n_contracts: usize, adapted: bool) -> World {
     let user = addr("user");
     let sink = addr("sink");
     let mut app = AppBuilder::new().build(|_, _, _| {});
-    let code = app.store_code(sc::contract());
+    let code = app.store_code(if adapted { sc::contract_adapted() } else { sc::contract() });
     let mut ks = vec![];
     let mut bal = vec![];
     for i in 0..n_contracts {
